@@ -316,10 +316,13 @@ def run(repo: Repo) -> Result:
         if on is None or symb.norm(on) != want_carry or off is None or text(off) != "1":
             res.add("C06-COPY", cp.qual, "carry", f"copy(carry_loop_iterations=True) must compute reduce(mul, (loop.length for loop in self.loops), self.loop_iteration_carry) and 1 otherwise (found `{text(on)[:80] if on is not None else None}` / `{text(off) if off is not None else None}`)", cp.file, cp.line)
     ctors = [c for c in calls(cp.node) if text(c.func) in ("self.__class__", "RenderContext")]
+    # (the value analysed above is the one the first constructor call receives: every other
+    #  constructor call must be handed that same local / expression)
+    first_kw = next((text(k.value) for c in ctors for k in c.keywords if k.arg == "loop_iteration_carry"), None)
     for c in ctors:
         res.ob(f"{cp.qual}:ctor")
         kw = {k.arg: text(k.value) for k in c.keywords}
-        if kw.get("loop_iteration_carry") != "loop_iteration_carry":
+        if kw.get("loop_iteration_carry") is None or kw.get("loop_iteration_carry") != first_kw:
             res.add("C06-COPY", cp.qual, "ctor-carry", "every context built by copy must receive loop_iteration_carry=loop_iteration_carry", cp.file, c.lineno)
     init = repo.own_method(CTX, "__init__")
     res.ob(init.qual)
